@@ -187,7 +187,10 @@ def clade_case(rng, min_o=6, max_o=8, max_s=3, nfam=4, unordered=True, costs=Non
     sps = rand_species_assignment(rng, S, no)
     syn = clade_syntenies(rng, oshape, nfam, unordered)
     O = fill_object(oshape, iter([{"s": s, "f": f} for s, f in zip(sps, syn)]))
-    return {"S": S, "O": O, "costs": costs or rand_costs(rng, plain=False)}
+    out = {"S": S, "O": O, "costs": costs or rand_costs(rng, plain=False)}
+    if unordered:
+        out["only"] = "unordered"  # 6-8 leaves: the ordered DP (2^families masks, every root order) is slow here
+    return out
 
 
 def sibling_inherit_case(rng, costs=None, small=False):
